@@ -23,6 +23,7 @@ import (
 	"reflect"
 	"strconv"
 	"strings"
+	"sync"
 	"testing"
 	"time"
 
@@ -1500,210 +1501,394 @@ func (c11PassCache) TakeWithExpireCtx(_ context.Context, val any, _ string, quer
 
 // ---- distinct struct types that share one name ----------------------------------------
 // Function-local types declared in different functions all print as "sqlx_test.row"
-// (reflect.Type.String is only package-name qualified): the mapping of one must not depend
-// on which other type of that name was mapped earlier in the process.
+// (reflect.Type.String is only package-name qualified), their embedded local types as
+// "sqlx_test.Inner". What a query does with a destination must depend on that destination's
+// type alone — its fields, tags, embedded structs — never on which other type of the same
+// name was mapped earlier or is being mapped concurrently.
 
 var c11RowCols = map[string]driver.Value{"id": int64(41), "first": "Ada", "last": "Lovelace", "age": int64(36), "n": int64(-7), "extra": []byte("zz")}
 
 type c11LocalQuery func(dest any) error
 
-func c11LocalA(q c11LocalQuery, many bool) string {
+// c11Local describes one local type: its columns (tag names, or the positional column
+// order for an untagged type) and a runner that queries into it (or a slice of it) and
+// renders every element as column -> field value.
+type c11Local struct {
+	name   string
+	tagged bool
+	cols   []string
+	run    func(q c11LocalQuery, many bool) ([]map[string]any, error)
+}
+
+func c11LocalA(q c11LocalQuery, many bool) ([]map[string]any, error) {
 	type row struct {
 		First string `db:"first"`
 		Last  string `db:"last"`
 	}
-	var got []row
+	got := make([]row, 1)
+	var err error
 	if many {
-		if err := q(&got); err != nil {
-			return "err: " + err.Error()
-		}
+		got = nil
+		err = q(&got)
 	} else {
-		got = make([]row, 1)
-		if err := q(&got[0]); err != nil {
-			return "err: " + err.Error()
-		}
+		err = q(&got[0])
 	}
+	var out []map[string]any
 	for _, g := range got {
-		if g != (row{"Ada", "Lovelace"}) {
-			return fmt.Sprintf("got %+v want {First:Ada Last:Lovelace}", g)
-		}
+		out = append(out, map[string]any{"first": g.First, "last": g.Last})
 	}
-	return c11LocalLen(len(got), many)
+	return out, err
 }
 
-func c11LocalB(q c11LocalQuery, many bool) string {
+func c11LocalB(q c11LocalQuery, many bool) ([]map[string]any, error) {
 	type row struct {
 		Last  string `db:"last"`
 		First string `db:"first"`
 	}
-	var got []row
+	got := make([]row, 1)
+	var err error
 	if many {
-		if err := q(&got); err != nil {
-			return "err: " + err.Error()
-		}
+		got = nil
+		err = q(&got)
 	} else {
-		got = make([]row, 1)
-		if err := q(&got[0]); err != nil {
-			return "err: " + err.Error()
-		}
+		err = q(&got[0])
 	}
+	var out []map[string]any
 	for _, g := range got {
-		if g != (row{Last: "Lovelace", First: "Ada"}) {
-			return fmt.Sprintf("got %+v want {Last:Lovelace First:Ada}", g)
-		}
+		out = append(out, map[string]any{"first": g.First, "last": g.Last})
 	}
-	return c11LocalLen(len(got), many)
+	return out, err
 }
 
-func c11LocalC(q c11LocalQuery, many bool) string {
+func c11LocalC(q c11LocalQuery, many bool) ([]map[string]any, error) {
 	type row struct {
 		ID    int64  `db:"id"`
 		Last  string `db:"last"`
 		Age   int    `db:"age"`
 		First string `db:"first"`
 	}
-	var got []row
+	got := make([]row, 1)
+	var err error
 	if many {
-		if err := q(&got); err != nil {
-			return "err: " + err.Error()
-		}
+		got = nil
+		err = q(&got)
 	} else {
-		got = make([]row, 1)
-		if err := q(&got[0]); err != nil {
-			return "err: " + err.Error()
-		}
+		err = q(&got[0])
 	}
+	var out []map[string]any
 	for _, g := range got {
-		if g != (row{41, "Lovelace", 36, "Ada"}) {
-			return fmt.Sprintf("got %+v want {ID:41 Last:Lovelace Age:36 First:Ada}", g)
-		}
+		out = append(out, map[string]any{"id": g.ID, "last": g.Last, "age": int64(g.Age), "first": g.First})
 	}
-	return c11LocalLen(len(got), many)
+	return out, err
 }
 
-func c11LocalD(q c11LocalQuery, many bool) string {
+func c11LocalD(q c11LocalQuery, many bool) ([]map[string]any, error) {
 	type row struct {
 		N     int64  `db:"n"`
 		First string `db:"first"`
 	}
-	var got []*row
+	got := []*row{{}}
+	var err error
 	if many {
-		if err := q(&got); err != nil {
-			return "err: " + err.Error()
-		}
+		got = nil
+		err = q(&got)
 	} else {
-		got = []*row{{}}
-		if err := q(got[0]); err != nil {
-			return "err: " + err.Error()
-		}
+		err = q(got[0])
 	}
+	var out []map[string]any
 	for _, g := range got {
-		if g == nil || *g != (row{-7, "Ada"}) {
-			return fmt.Sprintf("got %+v want {N:-7 First:Ada}", g)
+		if g == nil {
+			g = &row{N: -999}
 		}
+		out = append(out, map[string]any{"n": g.N, "first": g.First})
 	}
-	return c11LocalLen(len(got), many)
+	return out, err
 }
 
-func c11LocalE(q c11LocalQuery, many bool) string {
+func c11LocalE(q c11LocalQuery, many bool) ([]map[string]any, error) {
 	type row struct {
 		First string `db:"last"` // same field names as A, tags crossed
 		Last  string `db:"first"`
 	}
-	var got []row
+	got := make([]row, 1)
+	var err error
 	if many {
-		if err := q(&got); err != nil {
-			return "err: " + err.Error()
+		got = nil
+		err = q(&got)
+	} else {
+		err = q(&got[0])
+	}
+	var out []map[string]any
+	for _, g := range got {
+		out = append(out, map[string]any{"last": g.First, "first": g.Last})
+	}
+	return out, err
+}
+
+func c11LocalF(q c11LocalQuery, many bool) ([]map[string]any, error) {
+	type row struct { // A plus one field
+		First string `db:"first"`
+		Last  string `db:"last"`
+		Age   int64  `db:"age"`
+	}
+	got := make([]row, 1)
+	var err error
+	if many {
+		got = nil
+		err = q(&got)
+	} else {
+		err = q(&got[0])
+	}
+	var out []map[string]any
+	for _, g := range got {
+		out = append(out, map[string]any{"first": g.First, "last": g.Last, "age": g.Age})
+	}
+	return out, err
+}
+
+func c11LocalG(q c11LocalQuery, many bool) ([]map[string]any, error) {
+	type row struct { // untagged: by position
+		ID    int64
+		First string
+	}
+	got := make([]row, 1)
+	var err error
+	if many {
+		got = nil
+		err = q(&got)
+	} else {
+		err = q(&got[0])
+	}
+	var out []map[string]any
+	for _, g := range got {
+		out = append(out, map[string]any{"id": g.ID, "first": g.First})
+	}
+	return out, err
+}
+
+func c11LocalH(q c11LocalQuery, many bool) ([]map[string]any, error) {
+	type Inner struct {
+		First string
+		Last  string
+	}
+	type row struct { // untagged with an embedded local struct: 4 positional leaves
+		ID int64
+		Inner
+		Age int64
+	}
+	got := make([]row, 1)
+	var err error
+	if many {
+		got = nil
+		err = q(&got)
+	} else {
+		err = q(&got[0])
+	}
+	var out []map[string]any
+	for _, g := range got {
+		out = append(out, map[string]any{"id": g.ID, "first": g.First, "last": g.Last, "age": g.Age})
+	}
+	return out, err
+}
+
+func c11LocalI(q c11LocalQuery, many bool) ([]map[string]any, error) {
+	type Inner struct { // another "Inner": one field
+		Last string
+	}
+	type row struct { // 3 positional leaves: last, id, n
+		*Inner
+		ID int64
+		N  int64
+	}
+	got := make([]row, 1)
+	var err error
+	if many {
+		got = nil
+		err = q(&got)
+	} else {
+		err = q(&got[0])
+	}
+	var out []map[string]any
+	for _, g := range got {
+		last := ""
+		if g.Inner != nil {
+			last = g.Last
+		}
+		out = append(out, map[string]any{"last": last, "id": g.ID, "n": g.N})
+	}
+	return out, err
+}
+
+var c11Locals = []c11Local{
+	{"A", true, []string{"first", "last"}, c11LocalA},
+	{"B", true, []string{"last", "first"}, c11LocalB},
+	{"C", true, []string{"id", "last", "age", "first"}, c11LocalC},
+	{"D", true, []string{"n", "first"}, c11LocalD},
+	{"E", true, []string{"last", "first"}, c11LocalE},
+	{"F", true, []string{"first", "last", "age"}, c11LocalF},
+	{"G", false, []string{"id", "first"}, c11LocalG},
+	{"H", false, []string{"id", "first", "last", "age"}, c11LocalH},
+	{"I", false, []string{"last", "id", "n"}, c11LocalI},
+}
+
+type c11LocalCase struct {
+	Type   string   `json:"local_type"`
+	Many   bool     `json:"many"`
+	Strict bool     `json:"strict"`
+	Cols   []string `json:"cols"`
+}
+
+func c11GenLocalCase(r *rand.Rand) (c11Local, c11LocalCase) {
+	l := c11Locals[r.Intn(len(c11Locals))]
+	c := c11LocalCase{Type: l.name, Many: r.Intn(2) == 0, Strict: r.Intn(2) == 0}
+	if l.tagged {
+		names := []string{"id", "first", "last", "age", "n", "extra"}
+		perm := r.Perm(len(names))
+		k := len(names)
+		if r.Intn(2) == 0 {
+			k = 1 + r.Intn(len(names)) // fewer columns: some in, some out of the type's tags
+		}
+		for _, pi := range perm[:k] {
+			c.Cols = append(c.Cols, names[pi])
 		}
 	} else {
-		got = make([]row, 1)
-		if err := q(&got[0]); err != nil {
-			return "err: " + err.Error()
+		k := len(l.cols)
+		if r.Intn(2) == 0 {
+			k = 1 + r.Intn(len(l.cols))
 		}
+		c.Cols = append(c.Cols, l.cols[:k]...) // positional prefix, never more columns than fields
 	}
-	for _, g := range got {
-		if g != (row{First: "Lovelace", Last: "Ada"}) {
-			return fmt.Sprintf("got %+v want {First:Lovelace Last:Ada}", g)
-		}
-	}
-	return c11LocalLen(len(got), many)
+	return l, c
 }
 
-func c11LocalLen(n int, many bool) string {
-	if many && n != 2 {
-		return fmt.Sprintf("2 rows, %d elements", n)
+// c11RunLocalCase runs one case and judges it from the type's own description only.
+func c11RunLocalCase(m *vk.M, idx int, l c11Local, c c11LocalCase) bool {
+	desc := fmt.Sprintf("case=%d;%s", idx, vk.JSON(c))
+	var res c11Result
+	var row []driver.Value
+	present := map[string]bool{}
+	for _, name := range c.Cols {
+		res.Cols = append(res.Cols, name)
+		row = append(row, c11RowCols[name])
+		present[name] = true
 	}
-	return ""
+	res.Rows = [][]driver.Value{row, row}
+	rec := c11NewRec()
+	rec.results = []c11Result{res}
+	db, closeDB, err := c11Open(rec)
+	if err != nil {
+		m.Inconclusive("open: %v", err)
+		return false
+	}
+	conn := sqlx.NewConnFromDB(db)
+	q := func(dest any) error {
+		switch {
+		case c.Many && c.Strict:
+			return conn.QueryRows(dest, "select * from people")
+		case c.Many:
+			return conn.QueryRowsPartial(dest, "select * from people")
+		case c.Strict:
+			return conn.QueryRow(dest, "select * from people")
+		}
+		return conn.QueryRowPartial(dest, "select * from people")
+	}
+	var got []map[string]any
+	var qerr error
+	pv, panicked := vk.Recover(func() { got, qerr = l.run(q, c.Many) })
+	closeDB()
+	mode := map[bool]string{true: "strict", false: "partial"}[c.Strict]
+	sig := "C11:orm:same-name-types:" + l.name + ":" + mode + ":"
+	missing := 0
+	for _, name := range l.cols {
+		if !present[name] {
+			missing++
+		}
+	}
+	switch {
+	case panicked:
+		m.Violate(sig+"panic", desc, "panic: %v", pv)
+	case c.Strict && len(c.Cols) < len(l.cols):
+		if qerr == nil {
+			m.Violate(sig+"fewer-columns-accepted", desc, "strict: %d columns for this type's %d fields returned nil (dest %v)", len(c.Cols), len(l.cols), got)
+		} else {
+			m.Count("strict_rejections", 1)
+		}
+	case qerr != nil && c.Strict && l.tagged && missing > 0:
+		m.Count("strict_error_on_missing_names", 1) // legitimate either way
+	case qerr != nil:
+		m.Violate(sig+"unexpected-error", desc, "this type has %d fields, the result %d columns: %v", len(l.cols), len(c.Cols), qerr)
+	case c.Many && len(got) != 2:
+		m.Violate(sig+"row-count", desc, "2 rows, %d elements", len(got))
+	default:
+		for _, g := range got {
+			for _, name := range l.cols {
+				var want any
+				switch c11RowCols[name].(type) {
+				case int64:
+					want = int64(0)
+				default:
+					want = ""
+				}
+				if present[name] {
+					want = c11RowCols[name]
+				}
+				if g[name] != want {
+					m.Violate(sig+"wrong-value", desc, "field for column %q = %v, want %v (dest %v)", name, g[name], want, g)
+					return true
+				}
+			}
+			m.Count("structs_checked_"+l.name, 1)
+		}
+	}
+	return true
 }
 
-// TestVerifC11SameNameTypes interleaves the five local `row` types in one process.
+// TestVerifC11SameNameTypes: the nine local `row` types interleaved in one process, first
+// sequentially in seeded order, then from 8 goroutines at once.
 func TestVerifC11SameNameTypes(t *testing.T) {
-	m := vk.New(t, "C11", "five distinct function-local struct types that all print as sqlx_test.row (different field order, tag order, field count, crossed tags) queried in seeded interleavings (QueryRow / QueryRows, strict / partial, all six result columns in seeded order) within one process: each must be filled by ITS tags whatever was mapped before; non-trivial = always")
+	m := vk.New(t, "C11", "nine distinct function-local struct types that all print as sqlx_test.row (tagged: different field order / tag order / crossed tags / 2, 3 and 4 fields; untagged: 2 fields, embedded local struct Inner (4 leaves), embedded *Inner of another shape (3 leaves)) x {QueryRow, QueryRows} x {strict, partial} x result columns {all six in seeded order, seeded subset; positional prefix for untagged}: seeded alternating sequence, then the same generator from 8 goroutines concurrently; oracle from the destination type alone: its fields get its columns, strict with fewer columns than ITS field count => error, otherwise no error; non-trivial = always")
 	defer m.Done()
 	c11Setup()
-	locals := []struct {
-		name string
-		fn   func(c11LocalQuery, bool) string
-	}{{"A", c11LocalA}, {"B", c11LocalB}, {"C", c11LocalC}, {"D", c11LocalD}, {"E", c11LocalE}}
 	r := m.Rand("same-name")
-	rounds := vk.N(40, 2000)
+	n := vk.N(600, 40000)
 	idx := 0
-	names := []string{"id", "first", "last", "age", "n", "extra"}
-	for round := 0; round < rounds; round++ {
-		for _, li := range r.Perm(len(locals)) {
-			idx++
-			many, strict := r.Intn(2) == 0, r.Intn(2) == 0
-			perm := r.Perm(len(names))
-			if !m.Only(idx) {
-				continue
-			}
-			l := locals[li]
-			var res c11Result
-			var row []driver.Value
-			for _, pi := range perm {
-				res.Cols = append(res.Cols, names[pi])
-				row = append(row, c11RowCols[names[pi]])
-			}
-			res.Rows = [][]driver.Value{row, row}
-			desc := fmt.Sprintf("case=%d;{\"local_type\":%q,\"many\":%v,\"strict\":%v,\"cols\":%q}", idx, l.name, many, strict, res.Cols)
-			m.Current(desc)
-			rec := c11NewRec()
-			rec.results = []c11Result{res}
-			db, closeDB, err := c11Open(rec)
-			if err != nil {
-				m.Inconclusive("open: %v", err)
-				return
-			}
-			conn := sqlx.NewConnFromDB(db)
-			q := func(dest any) error {
-				switch {
-				case many && strict:
-					return conn.QueryRows(dest, "select * from people")
-				case many:
-					return conn.QueryRowsPartial(dest, "select * from people")
-				case strict:
-					return conn.QueryRow(dest, "select * from people")
-				}
-				return conn.QueryRowPartial(dest, "select * from people")
-			}
-			var diff string
-			pv, panicked := vk.Recover(func() { diff = l.fn(q, many) })
-			closeDB()
-			sig := "C11:orm:same-name-types:" + l.name + ":"
-			switch {
-			case panicked:
-				m.Violate(sig+"panic", desc, "panic: %v", pv)
-			case strings.HasPrefix(diff, "err: "):
-				m.Violate(sig+"unexpected-error", desc, "%s", diff)
-			case diff != "":
-				m.Violate(sig+"wrong-value", desc, "%s", diff)
-			default:
-				m.Count("structs_checked_"+l.name, 1)
-			}
-			m.Case(vk.Digest(desc), true)
-			if idx == 3 {
-				m.Sample(map[string]any{"local_type": l.name, "reflect_name": "sqlx_test.row", "cols": res.Cols, "observed": "mapped by its own tags"})
-			}
+	for i := 0; i < n; i++ {
+		idx++
+		l, c := c11GenLocalCase(r)
+		if !m.Only(idx) {
+			continue
+		}
+		m.Current(fmt.Sprintf("case=%d;%s", idx, vk.JSON(c)))
+		if !c11RunLocalCase(m, idx, l, c) {
+			return
+		}
+		m.Case(vk.Digest(vk.JSON(c)), true)
+		if idx == 3 {
+			m.Sample(map[string]any{"case": c, "reflect_name": "sqlx_test.row"})
 		}
 	}
+	// concurrent phase: verdicts are per call and depend on the destination type only
+	const workers = 8
+	per := vk.N(100, 5000)
+	var wg sync.WaitGroup
+	for g := 0; g < workers; g++ {
+		wg.Add(1)
+		go func(g int) {
+			defer wg.Done()
+			rg := m.Rand("same-name-concurrent", g)
+			for j := 0; j < per; j++ {
+				id := 1_000_000*(g+1) + j
+				l, c := c11GenLocalCase(rg)
+				if !m.Only(id) {
+					continue
+				}
+				if !c11RunLocalCase(m, id, l, c) {
+					return
+				}
+				m.Case(vk.Digest("conc", vk.JSON(c)), true)
+				m.Count("concurrent_calls", 1)
+			}
+		}(g)
+	}
+	wg.Wait()
 }
